@@ -219,6 +219,7 @@ int skinny64_ctr_init(Skinny64CTR_t *ctr)
     if (_skinny_has_vec128())
         vtable = &_skinny64_ctr_vec128;
     ctr->vtable = vtable;
+    ctr->ctx = 0;
 
     /* Initialize the CTR mode context */
     return (*(vtable->init))(ctr);
